@@ -330,8 +330,8 @@ def run(prog, rep, tier):
                 si = switch_info(prog, exi, bl.idx)
                 if si and si['kind'] == 'bool':
                     e = expr_of(exi, si['cond'])
-                    if e[0] == 'binop' and e[1] == 'Eq' and ((e[2][0] == 'call' and e[2][1] == cb.idx and e[3][0] == 'const' and e[3][1] == 0) or (e[3][0] == 'call' and e[3][1] == cb.idx and e[2][0] == 'const' and e[2][1] == 0)):
-                        guard = (bl.idx, si['true'])
+                    if e[0] == 'binop' and e[1] in ('Eq', 'Ne') and ((e[2][0] == 'call' and e[2][1] == cb.idx and e[3][0] == 'const' and e[3][1] == 0) or (e[3][0] == 'call' and e[3][1] == cb.idx and e[2][0] == 'const' and e[2][1] == 0)):
+                        guard = (bl.idx, si['true'] if e[1] == 'Eq' else si['false'])   # the edge taken when the callback returned 0
             okg = guard is not None and exi.edge_dominates(guard, ins[0].idx)
             # the inserted CallbackOutput is built from the FileWriter the callback initialised
             vo = origins(exi, [ins[0].term.args[2].place[0]])
